@@ -27,6 +27,14 @@ SO = {"threads": 1}
 TOL = 1e-6
 
 
+def report_corr(ctx, what, rep):
+    """correspondence disagreement (no failing input by itself): at most 5 replay files per run, so that
+    the concrete E2 verdicts of the same run are never crowded out of the report cap"""
+    ctx.count("correspondence_reports", "total")
+    if ctx.engines["correspondence_reports"]["total"] <= 5:
+        ctx.report(what, rep, concrete=False)
+
+
 def describe(kw):
     G = kw["G"]
     d = {k: v for k, v in kw.items() if k not in ("G", "weight_type")}
@@ -105,8 +113,8 @@ def e1_compare(ctx, m, caps, rep):
         ctx.count(eng, "cases"); ctx.count(eng, "rows_compared", len(impl["rows"])); ctx.count(eng, "cols_compared", len(impl["cols"]))
         if d:
             ctx.count(eng, "disagreements")
-            ctx.report(f"E1 correspondence broken: LP #{j + 1} of MinErrorFlow differs from MiscEnc.{'encode_mef' if j == 0 else 'encode_mef2'}: " + "; ".join(d[:3]),
-                       dict(rep, diff=d), concrete=False)
+            report_corr(ctx, f"E1 correspondence broken: LP #{j + 1} of MinErrorFlow differs from MiscEnc.{'encode_mef' if j == 0 else 'encode_mef2'}: " + "; ".join(d[:3]),
+                        dict(rep, diff=d))
         else:
             ctx.count(eng, "agreements")
 
@@ -241,7 +249,8 @@ def one_case(ctx, kw, info, rep, count=True):
             return None
         ctx.report("MinErrorFlow raised " + repr(e), rep); return None
     except ValueError as e:
-        ctx.dist("ValueError"); return None
+        # every generated instance is inside the documented domain (edges without the attribute are ignored)
+        ctx.report("MinErrorFlow rejects a valid instance with ValueError: " + str(e), rep); return None
     except Exception as e:
         ctx.report("MinErrorFlow raised " + repr(e), rep); return None
     e1_compare(ctx, m, caps, rep)
